@@ -268,7 +268,7 @@ def real_runs(mon, lab, rng, n, tier):
         if i % 3 == 2:
             # backgrounds that mix steps with and without examples placeholders, above outlines with tagged examples
             gen.update({"p_bg_param": 0.6, "p_background": 0.8, "p_outline": 0.5})
-        case = RB.gen_case(rng, gen=gen, p_stop=0.3, p_dry=0.15, p_user_skip=0.1)
+        case = RB.gen_case(rng, gen=gen, p_stop=0.3, p_dry=0.15, p_user_skip=0.1, p_names=0.15)
         if rng.random() < 0.3:
             # JUnit reporting switched on (the reporter itself is replaced by the checking reporter below): the runner keeps
             # captured output for every scenario then and takes another path at the end of Scenario.run
